@@ -1,4 +1,7 @@
 import JadeModel.Proofs.SystemUniqueNode
+import JadeModel.Proofs.SystemUniqueTraceW
+import JadeModel.Proofs.SystemUniqueTraceSA
+import JadeModel.Proofs.SystemUniqueTraceSB
 
 set_option linter.unusedSimpArgs false
 
@@ -6,69 +9,11 @@ set_option linter.unusedSimpArgs false
 
 namespace Jade.Sys
 
-/-- the node runners' own records (`seen` = the rows a runner wrote) -/
-structure NodeS (s : Sys) : Prop where
-  queuedSeen : ∀ p a n, s.procs p = .node a n → ∀ j ∈ n.queued, ∀ r ∈ n.seen, r.job ≠ j
-  runningSeen : ∀ p a n, s.procs p = .node a n → ∀ j ∈ n.running, ∀ r ∈ n.seen, r.job ≠ j
-  /-- a runner writes rows for jobs of its own batch only -/
-  seenBatch : ∀ p a n, s.procs p = .node a n → ∃ B ∈ s.batches, B.hid = some n.hid ∧ ∀ r ∈ n.seen, r.job ∈ B.jobs
-  seenNodup : ∀ p a n, s.procs p = .node a n → (n.seen.map (·.job)).Nodup
-
-theorem nodeS_init (sc : Scn) : NodeS (init sc) := by
-  refine ⟨?_, ?_, ?_, ?_⟩ <;> simp [init]
-
-set_option maxHeartbeats 64000000 in
 theorem nodeS_step {s s' : Sys} {op : Op} (hn : NodeInv s) (hw : NodeW s) (hi : NodeS s)
     (h : step s op = some s') : NodeS s' := by
-  have c1 := hw.queuedRunning
-  obtain ⟨-, n1, n2, n3, n4, n5, n6, n7, n8⟩ := hn
-  obtain ⟨d1, d2, d3, d4⟩ := hi
-  cases op <;> step_cases h <;> (refine ⟨?_, ?_, ?_, ?_⟩ <;> frame_nw)
-  all_goals first
-    | proc_clause
-    | grind [find?_hid, List.nodup_append]
-
-end Jade.Sys
-
-namespace Jade.Sys
-
-/-- some node runner has written a row for `j` -/
-def NodeWrote (s : Sys) (j : JobId) : Prop := ∃ p a n, s.procs p = .node a n ∧ ∃ r ∈ n.seen, r.job = j
-
-/-- the event is a node writing a row for job `j` (`_complete` or the node-level `cancel()`) -/
-def Op.nodeWrites (j : JobId) : Op → Bool
-  | .nodeRow _ k => k == j
-  | .nodeCancel _ k => k == j
-  | _ => false
-
-set_option maxHeartbeats 8000000 in
-theorem nodeWrote_step {s s' : Sys} {op : Op} (h : step s op = some s') (j : JobId) (hw : NodeWrote s j) :
-    NodeWrote s' j := by
-  obtain ⟨p, a, n, hp, r, hr, hj⟩ := hw
-  have key : ∃ a' n', s'.procs p = .node a' n' ∧ r ∈ n'.seen := by
-    cases op <;> step_cases h <;> frame_nw <;> grind
-  obtain ⟨a', n', hp', hr'⟩ := key
-  exact ⟨p, a', n', hp', r, hr', hj⟩
-
-set_option maxHeartbeats 8000000 in
-theorem nodeWrites_fresh {s s' : Sys} {op : Op} {j : JobId} (hn : NodeInv s) (hs : NodeS s)
-    (h : step s op = some s') (hw : op.nodeWrites j = true) : ¬ NodeWrote s j ∧ NodeWrote s' j := by
-  have hm := @mem_unique_batch s.batches hn.batch.jobsNodup
-  obtain ⟨-, n1, n2, n3, n4, n5, n6, n7, n8⟩ := hn
-  obtain ⟨d1, d2, d3, d4⟩ := hs
-  cases op <;> simp only [Op.nodeWrites, beq_iff_eq] at hw <;> (first | cases hw | skip) <;>
-    step_cases h <;> frame_nw
-  all_goals
-    refine ⟨?_, ?_⟩
-    · rintro ⟨p', a', n', hp', r, hr, hj⟩
-      grind
-    · unfold NodeWrote
-      frame_nw
-      exact ⟨_, true, _, if_pos rfl, _, List.mem_append.2 (Or.inr (List.mem_singleton.2 rfl)), rfl⟩
-
-end Jade.Sys
-
-namespace Jade.Sys
+  obtain ⟨c_queuedSeen, c_runningSeen⟩ := nodeS_step_a hn hw hi h
+  obtain ⟨c_seenBatch, c_seenNodup⟩ := nodeS_step_b hn hw hi h
+  exact ⟨c_queuedSeen, c_runningSeen, c_seenBatch, c_seenNodup⟩
 
 theorem node_writes_once_run (j : JobId) (ops : List Op) : ∀ (s s' : Sys), NodeInv s → NodeW s → NodeS s →
     run s ops = some s' →
@@ -92,10 +37,6 @@ theorem node_writes_once_run (j : JobId) (ops : List Op) : ∀ (s s' : Sys), Nod
         simp only [Bool.false_eq_true, if_false, Nat.add_zero]
         exact ⟨i1, fun hc => i2 (nodeWrote_step hs1 j hc)⟩
     · cases h
-
-end Jade.Sys
-
-namespace Jade.Sys
 
 theorem node_run {s s' : Sys} (ops : List Op) (hn : NodeInv s) (hw : NodeW s) (hs : NodeS s)
     (h : run s ops = some s') : NodeW s' ∧ NodeS s' := by
